@@ -117,6 +117,7 @@ var _ utils.PriorityQueue
 //@ props C01 C02 C04
 //@ assume
 //@ pure
+//@ noalloc
 //@ ensures [metric] ret == Distance(recv, arg0, arg1)
 //@ modifies nothing
 
@@ -148,6 +149,7 @@ var _ utils.PriorityQueue
 //@ func (*index.hnswVertex).isDeleted
 //@ props C01 C02
 //@ pure
+//@ noalloc
 //@ ensures [flag] ret == (this.deleted == 1)
 //@ modifies nothing
 
@@ -183,6 +185,10 @@ var _ utils.PriorityQueue
 
 // C01: an item enters the beam (candidate and result queues) only with the true distance between the query and its vector,
 // and only if it is not a tombstone at that moment (the entry point by precondition, every other vertex by the isDeleted test)
+// what every item of a search beam is: a queue item holding a vertex, with the true distance of that vertex to the query, and
+// not a tombstone (the entry vertex of the level search is the caller's responsibility)
+//@ spec vtx(it *utils.PriorityQueueItem) *hnswVertex = it.value.(*hnswVertex)
+//@ spec beamItem(ix *Hnsw, q math.Vector, ep *hnswVertex, it *utils.PriorityQueueItem) bool = it != nil && istype(it.value, *hnswVertex) && vtx(it) != nil && it.priority == Distance(ix.space, q, vtx(it).vector) && (vtx(it) == ep || vtx(it).deleted != 1)
 //@ func (*index.Hnsw).searchLevel
 //@ props C02 C01
 //@ safety UNCLAIMED
@@ -191,8 +197,20 @@ var _ utils.PriorityQueue
 //@ requires [C01 true-score] $arg0 == Distance(this.space, query, $arg1.(*hnswVertex).vector)
 //@ requires [C01 not-a-tombstone] $arg1.(*hnswVertex) != nil && ($arg1.(*hnswVertex) == entrypoint || $arg1.(*hnswVertex).deleted != 1)
 //@ end
+//@ assume [the queue predicate qP is read as: the item was made during this call] forall it *utils.PriorityQueueItem :: qP(it) == fresh(it)
+//@ ensures [C01 beam-contents] istype(ret, *utils.priorityQueue) && ret.pay != 0 && hdyn(ret.(*utils.priorityQueue).queue) && forall k int :: 0 <= k && k < len(qs(ret.(*utils.priorityQueue).queue)) ==> beamItem(this, query, entrypoint, qs(ret.(*utils.priorityQueue).queue)[k])
 //@ requires [C12 ef-fits] 0 <= ef && ef <= memcap() && this.config != nil && 0 <= this.config.mMax0 && this.config.mMax0 <= 65536
 //@ modifies cells[utils.minPriorityQueue], cells[utils.maxPriorityQueue], mem[*utils.PriorityQueueItem]
+//@ loop 1
+//@ invariant [C01 made-here] forall it *utils.PriorityQueueItem :: fresh(it) ==> beamItem(this, query, entrypoint, it)
+//@ invariant [C01 result-queue] istype(resultVertices, *utils.priorityQueue) && resultVertices.pay != 0 && fresh(resultVertices.(*utils.priorityQueue)) && wfpq(resultVertices.(*utils.priorityQueue))
+//@ invariant [candidate-queue] istype(candidateVertices, *utils.priorityQueue) && candidateVertices.pay != 0 && wfpq(candidateVertices.(*utils.priorityQueue))
+//@ invariant [separate-queues] qs(candidateVertices.(*utils.priorityQueue).queue).ref != qs(resultVertices.(*utils.priorityQueue).queue).ref && allocated(qs(candidateVertices.(*utils.priorityQueue).queue)) && allocated(qs(resultVertices.(*utils.priorityQueue).queue)) && candidateVertices.(*utils.priorityQueue) != resultVertices.(*utils.priorityQueue) && isMin(candidateVertices.(*utils.priorityQueue).queue) && isMax(resultVertices.(*utils.priorityQueue).queue)
+//@ loop 2
+//@ invariant [C01 made-here] forall it *utils.PriorityQueueItem :: fresh(it) ==> beamItem(this, query, entrypoint, it)
+//@ invariant [C01 result-queue] istype(resultVertices, *utils.priorityQueue) && resultVertices.pay != 0 && fresh(resultVertices.(*utils.priorityQueue)) && wfpq(resultVertices.(*utils.priorityQueue))
+//@ invariant [candidate-queue] istype(candidateVertices, *utils.priorityQueue) && candidateVertices.pay != 0 && wfpq(candidateVertices.(*utils.priorityQueue))
+//@ invariant [separate-queues] qs(candidateVertices.(*utils.priorityQueue).queue).ref != qs(resultVertices.(*utils.priorityQueue).queue).ref && allocated(qs(candidateVertices.(*utils.priorityQueue).queue)) && allocated(qs(resultVertices.(*utils.priorityQueue).queue)) && candidateVertices.(*utils.priorityQueue) != resultVertices.(*utils.priorityQueue) && isMin(candidateVertices.(*utils.priorityQueue).queue) && isMax(resultVertices.(*utils.priorityQueue).queue)
 
 //@ func (*index.Hnsw).selectNeighbors
 //@ props C02 C01
